@@ -6,7 +6,9 @@ from checks import utfcommon
 
 def histories(ck, tier, tmp):
     out = os.path.join(tmp, "hist.ndjson")
-    cfg = utfcommon.cfg_with("FaceLife_quick.cfg", tmp, MaxOps=3 if tier == "quick" else 5)
+    # thorough: four operations over every font kind (five over all of them is a matter of hours since the kinds and the
+    # operations grew; the deep histories run on a core of kinds below)
+    cfg = utfcommon.cfg_with("FaceLife_quick.cfg", tmp, MaxOps=3 if tier == "quick" else 4)
     try:
         r = vlib.tlc("FaceLife.tla", cfg, out_file=out, timeout=6000, coverage=(tier != "quick"), heap="16g")
     finally:
@@ -14,7 +16,7 @@ def histories(ck, tier, tmp):
     if r.violation:
         ck.violation("TLC: %s violated in FaceLife (design level)" % r.violation, {"why": "FaceLife model", "trace": vlib.tlc_error_trace(r.out)})
         return None, None
-    ck.add_tlc("FaceLife(MaxOps=%d)" % (3 if tier == "quick" else 5), r)
+    ck.add_tlc("FaceLife(MaxOps=%d)" % (3 if tier == "quick" else 4), r)
     rn = vlib.tlc("FaceLife.tla", "FaceLife_neg.cfg", timeout=900, coverage=False)
     if rn.violation != "NoCallbackWhenPreloaded":
         raise vlib.Broken("negative control FaceLife_neg not refuted: %r" % rn.violation)
@@ -55,6 +57,12 @@ def run(ck, tier, seed):
     ck.extra["impl"] = {"facelife": h.summary["extra"]}
     if not validate(ck, trace, "TLC histories"):
         return
+    if tier != "quick":
+        from checks import flcommon as fl5
+        cfg5 = fl5.write_cfg("_c16d_%d.cfg" % os.getpid(), Kinds='{"good", "badglyph", "noname", "compressed"}', Srcs='{"ops"}', Texts="{0, 1}", MaxOps=5)
+        ok5, _ = fl5.run_histories(ck, tmp, "five-operation histories (core kinds)", cfg5, "FaceLifeTrace.cfg", exe)
+        if not ok5:
+            return
     # the deprecated entry point that takes the same callbacks (gr_make_face_with_seg_cache_and_ops): same discipline
     from checks import flcommon as fl
     cfgc = fl.write_cfg("_c16c_%d.cfg" % os.getpid(), Kinds='{"good", "noname", "badsilf", "badglyph", "compressed"}', Srcs='{"opsc"}', Texts="{0}",
